@@ -57,11 +57,11 @@ type MGroup struct {
 }
 
 type MCmd struct {
-	Name     S      `json:"name"`
-	Desc     S      `json:"desc"`
-	LongDesc S      `json:"longDesc"`
-	SubOpt   bool   `json:"subOpt"`
-	Aliases  []S    `json:"aliases"`
+	Name     S        `json:"name"`
+	Desc     S        `json:"desc"`
+	LongDesc S        `json:"longDesc"`
+	SubOpt   bool     `json:"subOpt"`
+	Aliases  []S      `json:"aliases"`
 	Hidden   bool     `json:"hidden"`
 	Opts     []MOpt   `json:"opts"`   // the command's own options, then those of its nested groups, pre-order
 	Groups   []MGroup `json:"groups"` // its nested groups, pre-order
